@@ -214,12 +214,15 @@ func (b *Builder) Pair(depth int) (*spec.T, *spec.T) {
 	case "basic":
 		return b.leafBasic()
 	case "ptr":
+		b.topLevel = true // pointees are built, not assigned: arrays are fine there
 		s, t := b.Pair(depth - 1)
 		return spec.Ptr(s), spec.Ptr(t)
 	case "tptr":
+		b.topLevel = true
 		s, t := b.Pair(depth - 1)
 		return s, spec.Ptr(t)
 	case "sptr":
+		b.topLevel = true
 		s, t := b.Pair(depth - 1)
 		if t.K == spec.KPtr {
 			return spec.Ptr(s), t
@@ -234,6 +237,7 @@ func (b *Builder) Pair(depth int) (*spec.T, *spec.T) {
 		return spec.Array(1+b.draw(3, "alen"), s), spec.Slice(t)
 	case "map":
 		ks, kt := b.keyPair()
+		b.topLevel = true // map values are built into a temporary first
 		vs, vt := b.pairAssign(depth - 1)
 		return spec.Map(ks, vs), spec.Map(kt, vt)
 	case "struct":
